@@ -318,6 +318,28 @@ class StereoCondensedReactionGraph(StereoMolGraph, CondensedReactionGraph):
 
         return relabeled_scrg
 
+    def subgraph(self, atoms: Iterable[AtomId]) -> Self:
+        """Returns a subgraph of the graph with the given atoms and the
+        stereo information and stereo changes accordingly
+
+        :param atoms: Atoms to be used for the subgraph
+        :return: Subgraph
+        """
+        atoms = tuple(atoms)
+        new_graph = super().subgraph(atoms)
+        atom_set = set(atoms)
+        for changes, new_changes in (
+            (self._atom_stereo_change, new_graph._atom_stereo_change),
+            (self._bond_stereo_change, new_graph._bond_stereo_change),
+        ):
+            for key, change_dict in changes.items():
+                for change, stereo in change_dict.items():
+                    if stereo is not None and all(
+                        a in atom_set for a in stereo.atoms if a is not None
+                    ):
+                        new_changes[key][change] = stereo
+        return new_graph
+
     def reactant(self, keep_attributes: bool = True) -> StereoMolGraph:
         """
         Returns the reactant of the reaction
